@@ -32,8 +32,8 @@ pub struct Matcher {
 
 impl Matcher {
     pub fn new(glob_pattern: &str) -> Result<Self, MatchError> {
-        // Check if the pattern is valid
-        if is_valid_pattern(glob_pattern) {
+        // Check if the pattern is valid (the empty pattern matches everything)
+        if glob_pattern.is_empty() || is_valid_pattern(glob_pattern) {
             Ok(Matcher {
                 glob_pattern: Matcher::to_glob_string(glob_pattern),
             })
